@@ -118,7 +118,8 @@ def gen_case(ctx, idx, stream='case'):
         ('float_range', isfloat),
         ('float_nonbinary', isfloat and c['type'] != 'FRACTIONAL'),
         ('overlap_labelmap', four and c['type'] == 'LABELMAP' and len(c['segs']) > 1),
-        ('channels', four)) if ok]
+        ('channels', four),
+        ('dtype', not isfloat and c['dtype'] != 'bool')) if ok]
     if u < 0.15 and applicable:
         c['bad'] = r.choice(applicable)
     c['read_perm_seed'] = r.randrange(1 << 30)
@@ -216,6 +217,9 @@ def build_mask(c):
         m = np.concatenate([m, m[..., :1]], axis=-1)
         applied = b
     m = m.astype(dt)
+    if b == 'dtype' and applied is None and not isfloat and c['dtype'] != 'bool':
+        m = m.astype([np.int16, np.int32, np.int64, np.uint32][int(nr.integers(0, 4))])   # not an accepted dtype
+        applied = b
     if c['layout'] == '2d':
         m = m[0]
     return m, applied
@@ -253,6 +257,8 @@ def must_refuse(c, mask):
     """Independent statement of which masks are invalid (docstring of Segmentation.__init__)."""
     m = mask[None] if mask.ndim == 2 else mask
     segs = c['segs']
+    if m.dtype not in (np.bool_, np.uint8, np.uint16, np.float32, np.float64):
+        return 'dtype'
     if m.ndim == 4 and m.shape[-1] != len(segs):
         return 'channels'
     if m.dtype.kind == 'f':
@@ -411,8 +417,9 @@ def run_case(ctx, c, reqs, pending, paths=('memory', 'eager', 'lazy')):
         ctx.case(sample=None, nontrivial_key=None, **hist)
         if seg is not None:
             ctx.fail(desc, f'invalid input accepted ({refuse or "max_fractional_value outside 1..255"})', site='refusal')
-        reqs.append(('build', margs))
-        pending.append((desc, 'refusal', ('ok', None) if seg is not None else ('err', kind)))
+        if refuse != 'dtype':            # the model's Mask has no other dtypes: oracle only
+            reqs.append(('build', margs))
+            pending.append((desc, 'refusal', ('ok', None) if seg is not None else ('err', kind)))
         return
     if seg is None and c['ts'].startswith('JPEG-LS') and 'Unable to encode' in built[1]:
         # the external JPEG-LS encoder gives up on some small noisy frames: a refusal by the codec, not by highdicom
@@ -436,6 +443,17 @@ def run_case(ctx, c, reqs, pending, paths=('memory', 'eager', 'lazy')):
     except Exception as e:  # noqa: BLE001
         ctx.fail(desc, f'save_as failed: {type(e).__name__}: {e}'[:300], site='save_as')
     objs = {}
+    tmpdir = None
+    if blob is not None and c['idx'] % 10 == 3 and 'lazy' in paths:
+        # every tenth case also goes through a real file on disk (save_as(path) / segread(path))
+        import tempfile
+        tmpdir = tempfile.TemporaryDirectory(prefix='hdv_c01_')
+        fpath = os.path.join(tmpdir.name, 'seg.dcm')
+        try:
+            seg.save_as(fpath)
+            paths = tuple(paths) + ('eager-file', 'lazy-file')
+        except Exception as e:  # noqa: BLE001
+            ctx.fail(desc, f'save_as(path) failed: {type(e).__name__}: {e}'[:300], site='save_as')
     for path in paths:
         try:
             if path == 'memory':
@@ -444,6 +462,10 @@ def run_case(ctx, c, reqs, pending, paths=('memory', 'eager', 'lazy')):
                 objs[path] = hd.seg.segread(io.BytesIO(blob))
             elif blob is not None and path == 'lazy':
                 objs[path] = hd.seg.segread(io.BytesIO(blob), lazy_frame_retrieval=True)
+            elif path == 'eager-file':
+                objs[path] = hd.seg.segread(fpath)
+            elif path == 'lazy-file':
+                objs[path] = hd.seg.segread(fpath, lazy_frame_retrieval=True)
         except Exception as e:  # noqa: BLE001
             ctx.fail(dict(desc, path=path), f'segread failed: {type(e).__name__}: {e}'[:300], site='segread')
     supplied = list(range(P))
@@ -501,6 +523,9 @@ def run_case(ctx, c, reqs, pending, paths=('memory', 'eager', 'lazy')):
             if ok is False and stored_planes == set(range(P)):
                 ctx.fail(dict(desc, path=path, request='strict'), 'strict read refused although every source has a frame', site='read-strict')
             ctx.case(path='memory/strict', outcome='ok' if ok else 'keyerror')
+    objs.clear()
+    if tmpdir is not None:
+        tmpdir.cleanup()
     # ---- L1 through pydicom: frames of the written file
     if blob is not None:
         try:
